@@ -125,6 +125,7 @@ type Config struct {
 	MapOrder     bool
 	Schedules    bool
 	RaceDetect   bool
+	MaxPreempt   int // schedule exploration: bound on preemptive context switches per path
 	MaxSteps     int64
 	QueryTimeout int // ms
 	AllowExit    bool
@@ -138,6 +139,28 @@ func (i *interpreter) addPC(t *sym.Term) {
 		return
 	}
 	i.pc = append(i.pc, t)
+}
+
+// feasibleQuick answers like feasible but only from the cache and the byte-domain procedure
+// (never calls the solver); ok is false when neither applies.
+func (i *interpreter) feasibleQuick(t *sym.Term) (sym.Result, bool) {
+	if t.IsTrue() {
+		return sym.Sat, true
+	}
+	if t.IsFalse() {
+		return sym.Unsat, true
+	}
+	rel := i.slicePC(t)
+	key := cacheKey(rel, t)
+	if r, ok := i.qcache[key]; ok {
+		return r, true
+	}
+	if r, ok := i.byteDomainCheck(rel, t); ok {
+		i.Stats.DomainChecks++
+		i.qcache[key] = r
+		return r, true
+	}
+	return 0, false
 }
 
 // feasible checks satisfiability of pc ∧ t using the sliced path condition and a cache.
